@@ -61,8 +61,35 @@ def monitor_counts():
     return dict(monitors.COUNTS)
 
 
-def plan(tier):
+UPSTREAM_CHUNKS = 16
+
+
+def upstream_decks():
+    import glob
+    import os
+    import shlex
+    from .. import shim
     out = []
+    pattern = os.path.join(shim.REPO, 't4_geom_convert', 'IntegrationTests',
+                           'data', '*.imcnp')
+    for path in sorted(glob.glob(pattern)):
+        enc = 'latin1' if 'latin1' in path else 'utf-8'
+        with open(path, encoding=enc) as fil:
+            text = fil.read()
+        opts = []
+        for line in text.split('\n')[:50]:
+            pos = line.find('converter-flags:')
+            if pos != -1:
+                opts = shlex.split(line[pos + len('converter-flags:'):])
+        if '-e' in opts:
+            k = opts.index('-e')
+            del opts[k:k + 2]
+        out.append((os.path.basename(path), text, opts))
+    return out
+
+
+def plan(tier):
+    out = [('upstream', UPSTREAM_CHUNKS)]
     for src, (_fn, fams) in SOURCES.items():
         for fam in fams:
             out.append((f'{src}:{fam}', _PER[tier] * (3 if src == 'dup' else 1)))
@@ -179,7 +206,84 @@ def comp_by_key(sides, t4):
     return out
 
 
+def run_upstream(case, ctx):
+    '''The 128 upstream decks (no model available): the outputs under
+    different option sets are compared with each other point by point.'''
+    import re
+    import numpy as np
+    from ..core import Outcome
+    out = Outcome()
+    decks = [d for k, d in enumerate(upstream_decks())
+             if k % UPSTREAM_CHUNKS == case.index]
+    nsets = 2 if case.tier == 'quick' else 10
+    structures = []
+    for name, text, opts in decks:
+        base = ctx.convert(text, opts)
+        if not base.ok:
+            out.counters['upstream_base_raised'] += 1
+            continue
+        t4_a, _p = ctx.parse(base)
+        if case.tier == 'quick' and len(t4_a.volus) > 300:
+            out.counters['upstream_large_left_to_thorough'] += 1
+            continue
+        cells = set()
+        for line in text.split('\n')[1:]:
+            if not line.strip():
+                break
+            match = re.match(r'^ {0,4}(\d+)\s', line)
+            if match:
+                cells.add(int(match.group(1)))
+        vals = [abs(v) for s_ in t4_a.surfs.values() for v in s_.params]
+        world = min(200.0, max([1.0] + vals) * 1.2)
+        comps_a = None
+        for optset in case.rng.sample(option_sets(), nsets):
+            run_v = ctx.convert(text, opts + optset)
+            out.counters['option_sets'] += 1
+            if not run_v.ok:
+                crash_violation(out, run_v, what=f'{name} raised with {optset}')
+                continue
+            t4_b, _p = ctx.parse(run_v)
+            sides = probes.FileSides(t4_a, t4_b, cells)
+            pts = probes.make_probes(case.rng, sides, world, n_uniform=600)
+            judged, discarded, mism = probes.agree(sides, pts)
+            out.judged += judged
+            out.discarded += discarded
+            structures.append(f'{name}:{optset}')
+            if mism:
+                out.violation('options-geometry', {'deck': name,
+                                                   'options': optset,
+                                                   **summarise(mism)})
+            ca = {}
+            for t4x, vk, dst in ((t4_a, sides.vkeys_a, 'a'),
+                                 (t4_b, sides.vkeys, 'b')):
+                assigned = {vid: nm for nm, _n, ids in t4x.geomcomp
+                            for vid in ids}
+                for vid, key in vk.items():
+                    ca.setdefault(key, {}).setdefault(dst, set()).add(
+                        assigned.get(vid))
+            for key, both in ca.items():
+                if 'a' in both and 'b' in both:
+                    out.counters['composition_keys_compared'] += 1
+                    if both['a'] != both['b']:
+                        out.violation('options-composition',
+                                      f'{name} {optset}: key {key} is in '
+                                      f"{both['b']}, baseline {both['a']}")
+                        break
+        out.counters['upstream_decks'] += 1
+    for evt in monitors.drain():
+        if evt['monitor'] == 'dedup':
+            out.violation('dedup-merged-different', evt['detail'])
+        else:
+            raise RuntimeError(evt['detail'])
+    out.structures = structures
+    out.nontrivial = bool(structures)
+    out.sample = {'family': 'upstream', 'decks': [d[0] for d in decks][:4]}
+    return out
+
+
 def run(case, ctx):
+    if case.family == 'upstream':
+        return run_upstream(case, ctx)
     from ..core import Outcome
     out = Outcome()
     deck = build(case)
